@@ -271,6 +271,45 @@ def chaikinC (ss : List CSeg) : List CSeg :=
     | some t => [(mp1, mp2), (mp2, chaikinPoint t.1 t.2)]
     | none => [(mp1, mp2)]
 
+/-! ### The documented criterion of `EliminateColinear`, with Go's float operations
+
+`vertexNormalDifference(res, v) = 1 - math.Min(1, n1.Dot(n2))` where `n1`, `n2` are
+`Segment.Normal()` of the two segments at `v` (`Coord{-dy, dx}.Scale(1 / math.Sqrt(x*x + y*y))`,
+`Sub = Add(Scale(-1))`): only `+ * / sqrt`, performed here in the same order on the same bits,
+so this is bit-for-bit the number the Go code compares with `epsilon`. -/
+
+abbrev F2 := Float × Float
+
+def ratToFloat (q : Rat) : Float := Float.ofInt q.num / Float.ofNat q.den
+
+def segNormalF (a b : F2) : F2 :=
+  let dx := b.1 + a.1 * (-1)
+  let dy := b.2 + a.2 * (-1)
+  let vx := -dy
+  let vy := dx
+  let s := 1 / Float.sqrt (vx * vx + vy * vy)
+  (vx * s, vy * s)
+
+/-- `math.Min(1, d)` (NaN propagates). -/
+def goMin1 (d : Float) : Float := if d.isNaN then d else if d < 1 then d else 1
+
+def normalDiffF (a v b : F2) : Float :=
+  let n1 := segNormalF a v
+  let n2 := segNormalF v b
+  1 - goMin1 (n1.1 * n2.1 + n1.2 * n2.2)
+
+/-- Every segment of the real output is an input segment or bridges a removed vertex `v` that
+meets the criterion between the two end points (`eliminate_colinear_bridges_meet_criterion`:
+the LAST vertex removed between `a` and `b` was removed when its neighbours were `a` and `b`). -/
+def bridgesMeetCriterion (eps : Float) (cs : Array (Option P2)) (inp out : List Seg) : Bool :=
+  let vout := segVerts out
+  let removed := (segVerts inp).filter fun v => !vout.contains v
+  let pt := fun v => let p := at2 cs v; ((ratToFloat p.x, ratToFloat p.y) : F2)
+  let remPts := removed.map pt
+  out.all fun s => inp.contains s ||
+    (let a := pt s.1; let b := pt s.2
+     remPts.any fun v => normalDiffF a v b < eps)
+
 def nbrs2 (ss : List Seg) (v : Nat) : List Nat :=
   (ss.filter fun s => s.1 == v || s.2 == v).flatMap fun s => [s.1, s.2].filter (· != v)
 
@@ -295,7 +334,11 @@ def handle2 (l : Line) : Option String := do
         [("area-equal", area2 (toC2 cs out) == area2 (toC2 cs inp)),
          ("no-colinear-vertex-left", vout.all fun v => !colinearAt cs out v),
          ("only-colinear-removed", vin.all fun v => vout.contains v || colinearAt cs inp v)] else []
-    some (verdict (base ++ [("no-new-vertices", subset vout vin)] ++ geom))
+    let crit ← if l.params.contains "crit" then do
+        let eps ← floatOfHex (← l.params[1]?)
+        pure [("bridges-meet-criterion", bridgesMeetCriterion eps cs inp out)]
+      else pure []
+    some (verdict (base ++ [("no-new-vertices", subset vout vin)] ++ crit ++ geom))
   | "subdivide2" =>
     let it ← (← l.params.head?).toNat?
     let geom := if hasGeom then [("chaikin-masks", sameSegs (iter chaikinC it (toC2 cs inp)) (toC2 cs out))] else []
